@@ -1105,15 +1105,19 @@ func (l *lane) runCsCli(tc *tcase, c *acase, out emitter) {
 // could not make the observation ("stall", not judged, counted); anything else (an error other than
 // a timeout, a dead or spinning child) stands as recorded.
 func (l *lane) sentinelLastResort(r *rec, res2 clientRes, state2 string, long func() (clientRes, string)) {
-	if r.Sentinel || !(r.Outcome == "served" || r.Outcome == "dropped") || !timedOut(res2, state2) {
+	// (a sentinel call that RETURNED without a measurement for any reason - i/o timeout, or the SCION
+	// client's "no measurement" when its attempts ran out of time - is treated alike: the child
+	// answered the harness, so it is alive and its loops make progress; only the exchange failed.
+	// A busy machine produced exactly that under `bin/loadsweep`.)
+	if r.Sentinel || !(r.Outcome == "served" || r.Outcome == "dropped") || state2 != "returned" {
 		return
 	}
 	res3, state3 := long()
 	switch {
 	case state3 == "returned" && res3.Ok:
 		r.Sentinel = true
-	case timedOut(res3, state3) && l.cli != nil && !l.cli.exited() && !l.cli.spinning(100*time.Millisecond):
-		r.Outcome, r.Detail = "stall", "client sentinel timed out three times with growing deadlines; the child is alive and idle"
+	case state3 == "returned" && l.cli != nil && !l.cli.exited() && !l.cli.spinning(100*time.Millisecond):
+		r.Outcome, r.Detail = "stall", "client sentinel returned without a measurement three times with growing deadlines ("+res3.Err+"); the child is alive and idle"
 	}
 }
 
